@@ -508,6 +508,7 @@ func cmdCheck(args []string) int {
 
 	// ---- data races reported by the -race binary under simulator schedules
 	raceSeen := map[string]bool{}
+	raceTrouble := false
 	for _, rf := range raceFails {
 		class := raceClass(rf.Report)
 		if raceSeen[class] {
@@ -526,8 +527,13 @@ func cmdCheck(args []string) int {
 			continue
 		}
 		// the choice list of that run, from the plain binary (same seed => same choices)
+		// (run the way the -race binary runs it: no oracle that stops the run
+		// early, no reference servers - otherwise a functional violation of the
+		// same run would cut the list short)
 		c := simrt.NewSearchChooser(*seed, rf.Idx)
-		plain := runOne(e, c, -1, o, engine.NewStats(), true)
+		orace := o
+		orace.race = true
+		plain := runOne(e, c, -1, orace, engine.NewStats(), true)
 		f := &runResult{Idx: rf.Idx, Param: -1, Choices: plain.Choices}
 		raceReplay := func(choices []int) bool {
 			tmp := writeReplay(os.TempDir(), *prop, *eng, v, *seed, f, choices, nil, *tier, true, *repoHead, "")
@@ -543,7 +549,8 @@ func cmdCheck(args []string) int {
 		if !raceReplay(plain.Choices) || !raceReplay(plain.Choices) {
 			fmt.Fprintf(os.Stderr, "harness trouble: data race %s of run %d does not reproduce from its choice list in a fresh process\n", class, rf.Idx)
 			fmt.Fprintln(os.Stderr, trimReport(rf.Report))
-			return 2
+			raceTrouble = true
+			continue
 		}
 		min := shrink(plain.Choices, func(ch []int) (*runResult, bool) {
 			return &runResult{Choices: ch}, raceReplay(ch)
@@ -654,6 +661,11 @@ func cmdCheck(args []string) int {
 		*prop, *eng, *tier, nruns, nenum, total.Counters["race:runs"], wall, len(total.Sigs), len(total.States), nviol, knownHit)
 	if nviol > 0 {
 		return 1
+	}
+	if raceTrouble {
+		// a race report that cannot be replayed and no confirmed violation at all:
+		// the machinery could not do its job (never a pass, never a VIOLATION)
+		return 2
 	}
 	return 0
 }
